@@ -44,15 +44,15 @@ func cworkload(w int) [][]cop {
 	case 6: // a multi-key transaction with one value just below 64 KiB (its wal record is larger)
 		return [][]cop{
 			{{k: "a", v: 1}},
-			{{k: "a", v: 2}, {k: "b", v: 3, n: 65500}, {k: "c", v: 4}},
+			{{k: "a", v: 2}, {k: "b", v: 3, n: 65535}, {k: "c", v: 4}},
 			{{k: "c", v: 5}},
 		}
 	case 5: // as 4, but the active memtable holds a two-key transaction of which only one key
 		// has an older version in the queued memtable
 		return [][]cop{
 			{{k: "a", v: 1}},
-			{{k: "b", v: 2}},
-			{{k: "a", v: 3}, {k: "c", v: 4}},
+			{{k: "b", v: 2, n: 10}}, // 21 + 30 bytes: rotates at MEMTHR 50
+			{{k: "a", v: 3}, {k: "c", v: 4}}, // 42 bytes: stays in the active memtable
 		}
 	case 4: // short: one rotation, then a newer version of its key in the active memtable
 		return [][]cop{
